@@ -2,7 +2,7 @@
 per-body MIR is identical across feature sets, debug/nodebug differ only inside debug regions."""
 import hashlib, json, re
 from facts import callee_name, strip_refs, is_debug_only_switch
-from guards import guards_at, describe
+from guards import guards_at, describe, anchors, callers_of
 
 PANIC_PREFIX = ("core::panicking::", "core::fmt::Arguments", "core::fmt::rt::")
 
@@ -62,7 +62,13 @@ def rule_unchecked_sites(ctx, rule="C20-unchecked"):
             if "unchecked" in leaf and not leaf.startswith("unchecked_") and not t.get("local_key"):
                 found.add((path, nme))
                 key = (path, nme)
-                ctx.ob(rule, path, "audited:" + nme.rsplit("::", 1)[-1], key in UNCHECKED_TABLE, how=UNCHECKED_TABLE.get(key, ""), line=t.get("line", 0),
+                audited = key in UNCHECKED_TABLE
+                if not audited and path not in anchors(F):
+                    # an extracted private helper: the site is audited if every caller of the helper had
+                    # the same hint audited (the code moved, its justification did not change)
+                    cs = callers_of(F, path)
+                    audited = bool(cs) and all((cb.path, nme) in UNCHECKED_TABLE for cb, _, _ in cs)
+                ctx.ob(rule, path, "audited:" + nme.rsplit("::", 1)[-1], audited, how=UNCHECKED_TABLE.get(key, "moved into a helper called only from audited functions"), line=t.get("line", 0),
                        detail="new `%s` site in %s is not in the audited table: its precondition holds only by an argument nobody wrote down; in release builds a violated hint is undefined behaviour" % (nme, path))
                 if nme == "core::hint::unreachable_unchecked":
                     # sits on the Err edge of the expected fallible call, next to its debug twin
@@ -70,6 +76,11 @@ def rule_unchecked_sites(ctx, rule="C20-unchecked"):
                     errs = [g for g in gs if g[0] == "cls" and g[2] == "Err"]
                     what = [describe(b, g[3]) for g in errs]
                     ok = any(("layout_from_capacity(*repr::heap_buffer::HeapBuffer::header(p1).1)" in w) or ("TextLen::new(p2)" in w) for w in what)
+                    if not ok and path not in anchors(F):
+                        # helper taking the capacity as a parameter: every caller passes header().capacity
+                        cs = callers_of(F, path)
+                        ok = bool(cs) and any("layout_from_capacity(p" in w for w in what) and all(
+                            any(describe(cb, cb.origin_operand(a)) == "*repr::heap_buffer::HeapBuffer::header(p1).1" for a in ct["args"]) for cb, cbb, ct in cs)
                     ctx.ob(rule, path, "unreachable-on-Err-edge", ok, how="on the Err arm of %s" % what, line=t.get("line", 0),
                            detail="unreachable_unchecked is not on the Err arm of layout_from_capacity(header().capacity) / TextLen::new(len): %s" % what)
                     # debug twin: a debug-only panic on the same edge
